@@ -11,6 +11,7 @@ import (
 	"github.com/spf13/cobra"
 
 	"github.com/coreruleset/crs-toolchain/v2/context"
+	"github.com/coreruleset/crs-toolchain/v2/regex"
 	"github.com/coreruleset/crs-toolchain/v2/util"
 	"github.com/coreruleset/crs-toolchain/v2/utils"
 )
@@ -94,9 +95,17 @@ func parseFilePath(ruleOrFileName string, ctxt *context.Context) (string, error)
 	// try to find the file and get the actual name from the file system.
 	extension := path.Ext(ruleOrFileName)
 	ruleOrFileName = ruleOrFileName[:len(ruleOrFileName)-len(extension)]
-	candidates, err := utils.GlobInDir(ctxt.RegressionTestsDir(), "*", ruleOrFileName+".*")
+	matches, err := utils.GlobInDir(ctxt.RegressionTestsDir(), "*", ruleOrFileName+".*")
 	if err != nil {
 		return "", err
+	}
+	// only test files count: a backup or a note named after the rule (932100.yaml.orig, 932100.txt)
+	// is neither the file that was asked for nor a reason to call the name ambiguous
+	candidates := []string{}
+	for _, match := range matches {
+		if regex.RuleIdTestFileNameRegex.MatchString(path.Base(match)) {
+			candidates = append(candidates, match)
+		}
 	}
 	if len(candidates) == 0 {
 		return "", fmt.Errorf("no test file found for argument %s", ruleOrFileName)
